@@ -11,6 +11,20 @@
   ANY schedule of their atomic actions (entries naming finished, blocked or non-existent threads are
   no-ops), from a fresh live Session with any receive-channel configuration and any number `q` of
   queued packets. Nothing is bounded.
+
+  Scope notes (from an adversarial review of these statements, see DESIGN.md Appendix B.5):
+  * `Listener.Close` / `Server.Close` are not modelled (`srvActive` is constant); the end-to-end
+    scenarios exercise them. No thread of the model blocks on `s.wake` / `s.send`; `wait()` and a
+    connect+exchange are single always-enabled actions, so a missed-wake hang is not expressible:
+    liveness of the real goroutines is sampled end to end only (open statement 3).
+  * "a reachable peer is told" has no positive theorem (and fails in the model when the context is
+    cancelled between the last two actions of the closing listen turn); see the known finding
+    `lost-shutdown:peek-overwritten` for the server side.
+  * `close_returns`: a thread that died with a send on a closed channel (`panicSend`, the known
+    findings) counts as finished; read "every thread has returned or died with the recorded panic".
+  * the repair flags (`errShutdown`, `ackLocked`, ...) are regenerated facts; the invariants are
+    proved for the configuration they denote (`cfgF`), reverting one changes `cfgF` and breaks the
+    `facts_ok` obligations rather than a lemma that names the flag.
 -/
 import XMT.CloseQuiesce
 import XMT.CloseVariant
